@@ -39,7 +39,7 @@ def replay(pyhf, backend, precision, chunk, seed, optimizers=("scipy",), with_li
         d = abs(a - b) / max(scale, 1e-12)
         out["maxdev"][name] = max(out["maxdev"].get(name, 0.0), d)
         return d
-    for line in chunk:
+    for li, line in enumerate(chunk):
         case = json.loads(line)
         ops = [p["op"] for p in case["prog"]]
         tags = [f"op:{o}" for o in ops] + [f"backend:{backend}"]
@@ -100,7 +100,7 @@ def replay(pyhf, backend, precision, chunk, seed, optimizers=("scipy",), with_li
                 add("CLs (observed / expected band) changes under a likelihood-preserving rewrite", d, tags + ["cls", f"opt:{opt}"])
             elif dev("muhat", mu_hat1 * scale, mu_hat0, max(abs(mu_hat0), 0.1)) > 2e-2:
                 add("fitted signal strength does not transform covariantly under the rewrite", d, tags + ["muhat", f"opt:{opt}"])
-        if with_limits:
+        if with_limits and li % 3 == 0:      # six root searches per workspace pair: a third of the cases
             pyhf.set_backend(backend, "scipy", precision=precision)
             try:
                 ul0 = pyhf.infer.intervals.upper_limits.upper_limit(data0, m0, level=0.05)
